@@ -6,7 +6,7 @@
    revocation / expiry and clock advance. *)
 From Coq Require Import List ZArith.
 From Verif Require Import Base.KV Locks.Interleave Locks.LockLog Locks.EtcdLock Locks.EtcdLockProofs
-  Locks.EtcdAcceptProofs Locks.RedisLock Locks.RedisLockProofs Locks.RedisAcceptProofs.
+  Locks.EtcdAcceptProofs Locks.EtcdFifoProofs Locks.RedisLock Locks.RedisLockProofs Locks.RedisAcceptProofs.
 
 (* ---- etcd ---- *)
 Theorem C18_etcd_mutex : forall s i j a b,
@@ -59,6 +59,16 @@ Theorem C18_etcd_wait_timeout : forall s i c,
                    nth_error (s_cs s2) i = Some c2 /\ c_pc c2 = Failed ErrDeadline.
 Proof. exact etcd_wait_timeout. Qed.
 Print Assumptions C18_etcd_wait_timeout.
+
+(* nobody overtakes a waiter: the number of keys ahead of a waiting contender
+   never grows, whatever step anybody takes *)
+Theorem C18_etcd_no_overtaking : forall s l s' i c c',
+  reachable step sys_init s -> step s l = Some s' ->
+  nth_error (s_cs s) i = Some c -> nth_error (s_cs s') i = Some c' ->
+  c_pc c = Waiting -> c_pc c' = Waiting -> e_lease_live (s_kv s) (c_lease c) = true ->
+  (ahead s' c' <= ahead s c)%nat.
+Proof. exact etcd_ahead_mono. Qed.
+Print Assumptions C18_etcd_no_overtaking.
 
 (* the tie between the three parts: an event log (with no injected loss) that the
    trace acceptor explains by the model has no overlapping critical sections, so
